@@ -59,7 +59,8 @@ CHECKS["C05"] = dict(
     "consumer-race delays are enumerated per base configuration. Oracle: ground truth => failed scenario+phase, failure recorded "
     "with the offending request, exit!=0; exit 0 => nothing went wrong and every operation is accounted for. Also: an error event "
     "that names no operation (unresolvable path item) makes its phase errored, and a failure of a check on a request it derived itself "
-    "(ignored_auth) is filed under that request.",
+    "(ignored_auth) is filed under that request, also under continue-on-failure; a scenario whose recorder holds a failed check "
+    "never finishes SUCCESS.",
     note="Single faults at the guarded points, not at arbitrary bytecodes; runs cut short by max_failures are judged on exit code and >=1 recorded failure.",
     technique="runtime monitoring: fault injection at guarded hook points + ground-truth (server log) vs report oracle",
     design_ref="DESIGN.md#c05",
@@ -84,7 +85,8 @@ CHECKS["C13"] = dict(
     text="Per comparison group (document incl. filtered patterns/formats, examples, links, multi-file; phase subsets; modes; seed) the "
     "request log of the deterministic API is compared: two fresh processes with the same seed and different PYTHONHASHSEED, two "
     "runs in one process (sequence equality per phase, equal failure sets), 1 vs 2 vs 4 workers under seeded schedule jitter "
-    "(per-operation multiset equality in the unit phases); a different seed must be able to differ.",
+    "(per-operation multiset equality in the unit phases); a different seed must be able to differ. The seed as given on the real "
+    "command line (`st run --seed N`, N = 0 and 7) is probed with two runs each.",
     note="Per-case id header, User-Agent and Host are excluded; every module of the product and the harness is imported before the first run (Hypothesis' constants pool follows imported local modules; an editable install makes the product local); a fresh child is not compared with the long-lived shard process.",
     technique="runtime monitoring: offline comparison of recorded request logs across processes, repetitions and worker counts",
     design_ref="DESIGN.md#c13",
@@ -122,7 +124,8 @@ CHECKS["C10"] = dict(
     "malformed neighbours, against a reference evaluator, over random JSON bodies/headers/statuses. (2) Live stateful phases against "
     "an API with links on exact codes, 2XX and default (operationId/operationRef, explicit and implicit locations, nested request "
     "bodies): each link-derived request is paired through recorder parent ids and the test-case id header with its actual source "
-    "exchange in the API log and compared on the wire with what the expressions denote; the source status must match the link's key.",
+    "exchange in the API log and compared on the wire with what the expressions denote; the source status must match the link's key, "
+    "read against the documented codes of the transition's own source operation (two sources whose `default` stands for different codes).",
     note="Rendering of non-string values inside templates and '$' inside constants are not judged; the product's documented '}' rule is taken as given.",
     technique="runtime monitoring: differential oracle (reference runtime-expression evaluator) + trace pairing over recorded stateful histories",
     design_ref="DESIGN.md#c10",
@@ -136,7 +139,8 @@ CHECKS["C08"] = dict(
     "layout with relative references (components in a second file, a path item in another directory next to a decoy file of the "
     "same relative name); all 24 orders of iteration / subscript / by-id / by-reference access plus lookups made while an iteration "
     "is suspended are exercised; YAML keys that read as null/float/int/timestamp are written unquoted; every "
-    "offered operation's parameters and body alternatives are compared with an independent computation of its effective inputs, "
+    "offered operation's parameters and body alternatives are compared with an independent computation of its effective inputs "
+    "(an active apiKey requirement must yield its parameter, also next to a declared parameter of the same name in another location), "
     "and the YAML-loaded tree with the JSON reading.",
     note="Only name, location, required flag and (inlined) schema of parameters are compared; remote references are out of scope.",
     technique="runtime monitoring: reference model of effective inputs vs observed operations under all access orders and serialisations",
@@ -230,7 +234,7 @@ CHECKS["C17"] = dict(
     category="exploration",
     text="Generated documents (OpenAPI 2.0/3.0/3.1) carry unique marker examples at random subsets of the placements the statement "
     "lists (parameter example/examples and x- forms, parameter-schema example/examples, media-type example/examples incl. $ref'd example "
-    "objects, body-schema example, property-level (incl. falsy values and a property described by allOf) and anyOf-branch examples) with different counts per parameter, required parameters "
+    "objects, body-schema example, property-level (incl. falsy values and a property described by allOf) and anyOf-branch examples, a property carrying anyOf and oneOf at once) with different counts per parameter, required parameters "
     "without examples and an operation without any example; every strategy of get_strategies_from_examples is drawn and each marker "
     "must occur at its place in some case, each case must carry all required inputs and a schema-valid filled-in body; a sample runs "
     "the real examples phase and reads the API's request log and skip events.",
